@@ -153,10 +153,26 @@ theorem jan00_doyOf (i : Inst) (hr : InRange i) (h1 : 1 ≤ i.m) (h2 : i.m ≤ 1
     (jan00 i.y : Int) + doyOf i + dayC = days i.y i.m i.d :=
   jan00_doy i.y i.m i.d hr.1 hr.2 h1 h2
 
-/-- `diff` on in-range dates whose time-of-day difference stays within a day -/
+theorem hourOf_timed (i : Inst) (h : i.H < 24) : hourOf i = i.H := by
+  have : (i.H == allDay) = false := by simp [allDay]; omega
+  simp [hourOf, Inst.isAllDay, this]
+theorem hourOf_day (i : Inst) (h : i.H = allDay) : hourOf i = 0 := by
+  simp [hourOf, Inst.isAllDay, h]
+theorem msecOf_day (i : Inst) (h : i.H = allDay) : msecOf i = 0 := by
+  simp [msecOf, Inst.isAllDay, h]
+theorem msecOf_sec (i : Inst) (h : i.ms = allSec) : msecOf i = 0 := by
+  simp [msecOf, h]
+theorem msecOf_ms (i : Inst) (h : i.H < 24) (hms : i.ms < 1000) : msecOf i = i.ms := by
+  have a : (i.H == allDay) = false := by simp [allDay]; omega
+  have b : (i.ms == allSec) = false := by simp [allSec]; omega
+  simp [msecOf, Inst.isAllDay, a, b]
+
+/-- `diff` on in-range dates whose time-of-day difference stays within a day; the hour of a day as such and the
+millisecond of a second as such count as 0 (`hourOf`, `msecOf`) -/
 theorem diff_general (a b : Inst) (ra : InRange a) (rb : InRange b)
     (ha1 : 1 ≤ a.m) (ha2 : a.m ≤ 12) (hb1 : 1 ≤ b.m) (hb2 : b.m ≤ 12) (t : Int)
-    (ht : t = ((((a.H : Int) - b.H) * 60 + ((a.M : Int) - b.M)) * 60 + ((a.S : Int) - b.S)) * 1000 + ((a.ms : Int) - b.ms))
+    (ht : t = (((hourOf a - hourOf b) * 60 + ((a.M : Int) - b.M)) * 60 + ((a.S : Int) - b.S)) * 1000 +
+      (msecOf a - msecOf b))
     (hu : t < 86400000) :
     diff a b = (days a.y a.m a.d - days b.y b.m b.d) * 86400000 + t := by
   have ea := jan00_doyOf a ra ha1 ha2
